@@ -135,7 +135,10 @@ def _cond(c, vs):
     return (x != k) if op == "ne" else (x == k)
 
 
-def run(rep, tier, kinds=("vjp", "jvp"), adjoint=False, names=None):
+SECOND_SKIP = {"arctanh": "z3/cvc5 leave d/dx of the rule vs d/dx of g/(1-x^2) undecided within the budget (nonlinear real arithmetic with 1/(1-x^2)^2); the bounded N-hess / X-hess runs cover it"}
+
+
+def run(rep, tier, kinds=("vjp", "jvp"), adjoint=False, names=None, second=False):
     rv, rj, dropped = load()
     rep.extra["shadow_import_lines_replaced"] = dropped
     rep.extra["shadow_registrations"] = dict(vjp=len(rv.vjps) + len(rv.vjp_argnum), jvp=len(rj.jvps) + len(rj.jvp_argnum) + len(rj.linear))
@@ -193,6 +196,36 @@ def run(rep, tier, kinds=("vjp", "jvp"), adjoint=False, names=None):
                         else:
                             rep.violation(f"E2:{kind}:{name}", f"arg{a}", f"obligation {cname} not discharged ({reason})", replay=spec_r,
                                           witness=False, solver_output=(str(m)[:400] if m is not None else reason))
+            if second:
+                # C07: the rule agrees with g * df/dx also as a DIFFERENTIABLE function of every primal argument: d rule / d b == d (g * df/dx) / d b,
+                # `where` differentiated branch-wise exactly as autograd does at the next order (a select that freezes an argument at a special point shows here)
+                for kind in kinds:
+                    r = got.get(kind)
+                    if r is None or isinstance(r, Exception):
+                        continue
+                    for b in VARS[nargs]:
+                      subcases2 = CASES.get(name, [[]])
+                      for ci, extra in enumerate(subcases2):
+                        cname = f"second:{kind}:{name}:arg{a}:d-rule-d{b}-equals-d-spec-d{b}" + (f":case{ci}" if len(subcases2) > 1 else "")
+                        if name in SECOND_SKIP:
+                            rep.uncover(f"E2 {cname}: {SECOND_SKIP[name]}") if kind == "vjp" and b == VARS[nargs][0] else None
+                            continue
+                        d2 = list(dom) + [_cond(c, vs) for c in extra]
+                        try:
+                            verdict, m, backend, secs, zz = rc.identity_obligation(rc.D(r, b), rc.D(expected, b), d2)
+                        except (NotScalar, TypeError, ValueError, AttributeError) as e:
+                            verdict, m, backend, secs = "unknown", None, "-", 0.0
+                        if verdict == "unknown":
+                            # nonlinear real arithmetic: an undecided instance of this SUPPLEMENTARY family is listed as uncovered, never reported (the solver's
+                            # "unknown" depends on timing); only a refutation with a model is a violation
+                            rep.uncover(f"E2 {cname}: undecided by z3/cvc5 within the budget")
+                            continue
+                        rep.obligation(cname, verdict == "proved", backend, secs, "E2")
+                        if verdict != "proved":
+                            env = {v: rc.model_value(m, z3.Real(v), 0.5) for v in VARS[nargs] + ["g"]} if m is not None else None
+                            rep.violation(f"E2:second:{kind}:{name}", f"arg{a}:d{b}" + (f":case{ci}" if len(subcases2) > 1 else ""),
+                                          (f"{cname}: at {env} the derivative of the real rule with respect to {b} differs from that of g*df/d{VARS[nargs][a]} "
+                                           "(second-order derivatives through this rule are wrong there)") if env else f"{cname} not discharged", witness=False, solver_output=str(m)[:300])
             if adjoint and "vjp" in got and "jvp" in got and not any(isinstance(x, Exception) for x in got.values()):
                 # C04: the two independently written tables describe the same linear map (no calculus table involved)
                 adom = ADJ_DOM[name](*vs) if name in ADJ_DOM else dom + ([_cond(c, vs) for c in CASES.get(name, [[]])[0]])
